@@ -180,7 +180,11 @@ def failures(gi, diags):
                 labs = list(gi._inh.get(f[2] or f[1], []))
         text = gi.lines[clause_line - 1].strip() if clause_line and clause_line <= len(gi.lines) else ''
         pline = prim[0]['line_start'] if prim else where
-        out.append({'kind': classify(msg), 'message': msg, 'fn': (f[2] or f[1]) if f else None, 'src': f[3] if f else None,
+        # a diagnostic that carries a rustc error code (E0277 "trait bound ... is not satisfied", E0425, ...) is a compile
+        # error, whatever its wording
+        rustc_code = ((d.get('code') or {}).get('code') or '')
+        kind = 'tool' if re.match(r'^E\d{4}$', rustc_code) else classify(msg)
+        out.append({'kind': kind, 'message': msg, 'fn': (f[2] or f[1]) if f else None, 'src': f[3] if f else None,
                     'hint': gi.hint_at(pline) if pline else None, 'pline': pline,
                     # the failed `requires` clause lies in another file (vstd): the precondition of a std function
                     'clause_ext': any(('failed precondition' in (s2.get('label') or '')) for s2 in ext_spans),
